@@ -53,6 +53,13 @@ def collect(tier, seed):
                 cid = 'c%d' % k; k += 1
                 lines.append('%s (codec %s %d %s)' % (cid, codec, lv, hx(p)))
                 meta[cid] = ('rt', codec, lv, p)
+    # long runs of one byte (generated inside the harness): expansion ratios above 1000:1
+    for codec, levels in LEVELS.items():
+        for lv in sorted({levels[0], levels[len(levels) // 2], levels[-1]}):
+            for (b, n) in ([(0, 4 << 20), (97, 6000000)] if tier == 'quick' else [(0, 4 << 20), (97, 6000000), (255, 16 << 20), (0, 3 << 20)]):
+                cid = 'c%d' % k; k += 1
+                lines.append('%s (codec %s %d (rep %d %d))' % (cid, codec, lv, b, n))
+                meta[cid] = ('run', codec, lv, (b, n))
     # reference-compressed input, mutated compressed input, random input
     for codec in ('deflate', 'snappy', 'bzip2', 'xz', 'zstandard'):
         for p in ps:
@@ -101,6 +108,31 @@ def judge(run, meta, out, bout, crc):
     for cid, (kind, codec, lv, p) in meta.items():
         run.evaluations += 1
         o = out.get(cid)
+        if kind == 'run':
+            case = {'kind': kind, 'codec': codec, 'level': lv, 'payload': '%d bytes of value %d' % (p[1], p[0])}
+            if o is None or tag(o) != 'obs' or len(o) < 3 or not isinstance(o[1], str):
+                run.fail('compress-fails', 'a run of %d bytes: %s' % (p[1], show(o)[:60] if o is not None else 'none'), case)
+            elif tag(o[2]) != 'ok' or int(o[2][1]) != p[1] or o[2][2] != '1':
+                run.fail('roundtrip-differs', 'a run of %d equal bytes does not come back (%s); compressed to %d bytes' % (p[1], show(o[2])[:40], len(unhx(o[1]))), case)
+            else:
+                comp = unhx(o[1])
+                try:
+                    data = bytes([p[0]]) * p[1]
+                    if codec == 'deflate':
+                        okk = zlib.decompress(comp, -15) == data
+                    elif codec == 'bzip2':
+                        okk = bz2.decompress(comp) == data
+                    elif codec == 'xz':
+                        okk = lzma.decompress(comp) == data
+                    else:
+                        okk = True
+                except Exception:
+                    okk = False
+                if not okk:
+                    run.fail('reference-decoder-rejects', 'the reference decoder does not read the compressed run back', case)
+                else:
+                    run.nontrivial_case('run:%s:%d:%s' % (codec, lv, p))
+            continue
         case = {'kind': kind, 'codec': codec, 'level': lv, 'payload_len': len(p), 'payload': p.hex()[:200]}
         if o is None or tag(o) in ('panic', 'timeout', 'abort', 'missing'):
             run.fail('codec-' + str(tag(o) if o is not None else 'none'), 'outcome %s' % (show(o)[:80] if o is not None else ''), case)
